@@ -287,9 +287,11 @@ def execute(scenario, chooser):
             s = core.current()
             # the origin the real clock took (observation of its state; a
             # stall may separate the assignment from this line)
-            origin = getattr(self, '_start_time', None)
-            origin = s.now if origin is None else origin - s.epoch
-            rec.append(('reset', origin, len(s.log)))
+            # the origin the real clock took, obtained through its own et()
+            # (a stall may separate the real assignment from this line, so
+            # the current time would not do)
+            elapsed = self.et()
+            rec.append(('reset', s.now - elapsed, len(s.log)))
 
         def pause_for(self, delay):
             s = core.current()
